@@ -7,7 +7,7 @@ git -C $wt apply "$P" || { echo "patch does not apply"; git -C /repo worktree re
 cp /repo/traits/version.py $wt/traits/version.py 2>/dev/null
 ev=$(mktemp -d -p /var/tmp wmev-XXXXXX)
 for c in "$@"; do
-  out=$(cd /verif && VERIF_REPO=$wt VERIF_EVIDENCE_DIR=$ev VERIF_REPLAY_DIR=$ev ./check $c --tier ${TIER:-quick} 2>&1); rc=$?
+  out=$(cd /verif && VERIF_REPO=$wt VERIF_EVIDENCE_DIR=$ev VERIF_REPLAY_DIR=$ev ./check $c --tier ${TIER:-quick} ${ONLY:+--only $ONLY} 2>&1); rc=$?
   echo "WM $c rc=$rc $(echo "$out" | grep -c '^VIOLATION') violation line(s)"; echo "$out" | grep -A1 '^VIOLATION' | head -${SHOW:-4} | cut -c1-240
 done
 rm -rf $ev; git -C /repo worktree remove --force $wt; git -C /repo worktree prune
